@@ -1376,6 +1376,9 @@ def rule_ids(ctx):
 
 
 def run(ctx):
+    import c19 as _c19
+
+    ctx.include("C03.12", "a finding of a file named on the command line is not filtered out as a library finding: the user inputs are the set of canonical paths queued from the command line, whatever route reached the file first (shared with C19.1/C19.4)", _c19.rule_canonical, _c19.rule_user_inputs)
     rule_drain(ctx)
     rule_duplicates_once(ctx)
     rule_exit_status(ctx)
